@@ -2,10 +2,10 @@ package netsim
 
 import (
 	"bytes"
-	"os"
 	"encoding/hex"
 	"fmt"
 	"io"
+	"os"
 	"sort"
 	"time"
 
@@ -37,13 +37,13 @@ type byzantine struct {
 
 	// knowledge: alternatives seen per height
 	alts      map[int64][]altDecision
-	voteTmpl  []byte                     // bytes of some real vote message (template for crafting)
-	known     map[string][]byte          // crafted/own vote messages by (signer,h,r,type,variant)
-	knownKeys []string                   // insertion order (deterministic)
+	voteTmpl  []byte                        // bytes of some real vote message (template for crafting)
+	known     map[string][]byte             // crafted/own vote messages by (signer,h,r,type,variant)
+	knownKeys []string                      // insertion order (deterministic)
 	precommit map[int64]map[string][]pcItem // height -> decision key -> precommits seen (real ones)
-	blockTS   map[string]int64           // block id -> timestamp (from proposals it decoded)
-	blockByH  map[int64][]string         // height -> block ids seen in decoded proposals
-	bodyVotes map[int64][]byte           // height h -> bf.Votes of a decoded block at h (commit votes for h-1)
+	blockTS   map[string]int64              // block id -> timestamp (from proposals it decoded)
+	blockByH  map[int64][]string            // height -> block ids seen in decoded proposals
+	bodyVotes map[int64][]byte              // height h -> bf.Votes of a decoded block at h (commit votes for h-1)
 
 	// forged block encodings, by part-set hash
 	forged map[string]*forgedInfo
@@ -53,7 +53,7 @@ type byzantine struct {
 	forgedAt    map[string]*forgedInfo // "height/round" of a forged proposal
 	fsst        *fsState               // fast-sync lies (fastsync.go)
 	fastsync    bool
-	starveParts bool // fastsync profile: withhold block parts from the laggard (it has the votes, not the block)
+	starveParts bool               // fastsync profile: withhold block parts from the laggard (it has the votes, not the block)
 	rawBlocks   map[int64][][]byte // height -> complete block encodings seen on the wire (valid proposals of anybody)
 }
 
